@@ -48,6 +48,7 @@ type TField struct {
 	Req     int
 	T       *TType
 	Default *TVal  // IDL default (scalars/strings only)
+	Typedef string // the field's type is spelled through this typedef name ("" = directly)
 	DefText string // how the default is spelled in the IDL when it is not a literal (constant / enum value, local or included)
 	Anno    string // raw annotation text appended to the IDL field
 	JSConv  bool
@@ -200,6 +201,10 @@ type tgenOpts struct {
 	// SharedNames: field names are drawn from a small pool, so that different structs declare the same name
 	// under different ids
 	SharedNames bool
+	// ZeroID: some structs declare a field with id 0
+	ZeroID bool
+	// Typedefs: base types are now and then referred to through a typedef (typedef binary Blob, typedef i64 Id, ...)
+	Typedefs bool
 	// SplitFiles: the first structs of the schema are declared in an included file (referenced as inc.Name
 	// from the main file, by their bare names inside it); sometimes the main file declares a struct of its
 	// own under the same name as an included one
@@ -217,6 +222,8 @@ type tgen struct {
 	sch  *TSchema
 	nctr int
 	inc  []string // declarations of the included file defs.thrift
+	// typedefs declared so far (main file)
+	typedefs map[string]bool
 }
 
 // constSpelling declares what is needed for the default v to be written through an identifier and
@@ -366,6 +373,9 @@ func (g *tgen) newStruct(depth int) *TStruct {
 	}
 	used := map[int]bool{}
 	nextID := 1
+	if g.o.ZeroID && g.t.Chance(1, 3, "struct.zeroid") {
+		nextID = 0 // field id 0 is legal (the response wrapper's `success`)
+	}
 	for i := 0; i < nf; i++ {
 		id := nextID
 		if g.o.BigIDs && g.t.Chance(1, 5, "field.bigid") {
@@ -429,6 +439,21 @@ func (g *tgen) newStruct(depth int) *TStruct {
 			f.Default = g.defaultFor(f.T)
 			if f.Default != nil && g.o.ConstDefaults && g.t.Chance(1, 3, "field.default.const") {
 				f.DefText = g.constSpelling(f.T, f.Default)
+			}
+		}
+		if g.o.Typedefs && g.t.Chance(1, 4, "field.typedef") {
+			switch f.T.Kind {
+			case tBOOL, tBYTE, tI16, tI32, tI64, tDOUBLE, tSTRING:
+				base := typeName(f.T)
+				name := "T" + strings.ToUpper(base[:1]) + base[1:]
+				if !g.typedefs[name] {
+					if g.typedefs == nil {
+						g.typedefs = map[string]bool{}
+					}
+					g.typedefs[name] = true
+					g.sch.Consts = append(g.sch.Consts, "typedef "+base+" "+name)
+				}
+				f.Typedef = name
 			}
 		}
 		st.Fields = append(st.Fields, f)
@@ -565,7 +590,11 @@ func renderStructs(sb *strings.Builder, structs []*TStruct, file string) {
 					def = " = " + f.DefText
 				}
 			}
-			fmt.Fprintf(sb, "  %d: %s%s %s%s%s\n", f.ID, req, typeNameIn(f.T, file), f.Name, def, f.Anno)
+			tn := typeNameIn(f.T, file)
+			if f.Typedef != "" && file == "" {
+				tn = f.Typedef
+			}
+			fmt.Fprintf(sb, "  %d: %s%s %s%s%s\n", f.ID, req, tn, f.Name, def, f.Anno)
 		}
 		for _, rf := range st.RawFields {
 			sb.WriteString("  " + rf + "\n")
